@@ -27,8 +27,7 @@ pub async fn rename(
         if let Some(ident) = &cursor.ident() {
             let DocumentCursor { doc, context, .. } = cursor;
             if let Some(entry) = context {
-                // Early return for int
-                if &ident.value == "int" {
+                if !is_renameable(ident, &entry, &doc.table) {
                     return Ok(None);
                 }
                 let idents = find_referenced_identifiers(ident, &entry, &doc.ast, &doc.table);
@@ -61,15 +60,30 @@ pub async fn prepare_rename(
 ) -> Result<Option<PosRange>> {
     if let Some(cursor) = super::doc_cursor(params, doctx).await? {
         if let Some(ident) = &cursor.ident() {
-            // Early return for int
-            if &ident.value == "int" {
-                return Ok(None);
+            let DocumentCursor { doc, context, .. } = cursor;
+            if let Some(entry) = context {
+                if is_renameable(ident, &entry, &doc.table) {
+                    return Ok(Some(as_pos_range(&ident.to_range(), &doc.text)));
+                }
             }
-            let text = cursor.doc.text;
-            return Ok(Some(as_pos_range(&ident.to_range(), &text)));
         }
     }
     Ok(None)
+}
+
+/// Predefined types and procedures have no declaration that could be renamed,
+/// and a program without a procedure `main` is not valid.
+fn is_renameable(ident: &Ident, context: &GlobalEntry, global_table: &GlobalTable) -> bool {
+    let lookup_table = LookupTable {
+        global_table: Some(global_table),
+        local_table: match context {
+            GlobalEntry::Procedure(p) => Some(&p.local_table),
+            GlobalEntry::Type(_) => None,
+        },
+    };
+    lookup_table.lookup(&ident.value).is_some_and(|entry| {
+        !entry.is_default() && !matches!(&entry, Entry::Procedure(p) if p.name.value == "main")
+    })
 }
 
 pub async fn find(
